@@ -475,6 +475,7 @@ type Contract struct {
 	CallSites []CallSiteSpec
 	CutAfter  string
 	Inline    bool
+	TokenModel bool           // verify this function with the value-token model of perunio.Encode/Decode
 	Inlines   map[string]bool // callees whose real body is used in this function although they carry a contract
 	NoFrame   bool // the frame (modifies) of this function is assumed, not checked (listed as an assumption)
 	Trusted   bool
@@ -503,6 +504,14 @@ type LoopSpec struct {
 	HasMod     bool
 	ModFresh   bool // "modifies fresh": locations of objects allocated since function entry may change
 	Unroll     int
+	Records    []RecordSpec
+}
+
+// RecordSpec: "record NAME = expr" keeps, in the ghost array rec("NAME", .), the value of expr at the loop head of every
+// iteration (index: the number of completed iterations, $i), and at loop exit (index: the total number of iterations).
+type RecordSpec struct {
+	Name string
+	E    Clause
 }
 
 type Clause struct {
@@ -572,7 +581,7 @@ var clauseKeywords = map[string]bool{
 	"pred": true, "ghost": true, "axiom": true, "func": true, "requires": true, "ensures": true,
 	"modifies": true, "loop": true, "invariant": true, "inline": true, "trusted": true, "bounded": true,
 	"interface": true, "global": true, "assume": true, "trustedensures": true, "lemma": true, "panics": true, "pure": true,
-	"method": true, "end": true, "results": true, "unroll": true, "envassume": true, "noframe": true, "sealed": true, "callsite": true, "cutafter": true, "inlines": true,
+	"method": true, "end": true, "results": true, "unroll": true, "envassume": true, "noframe": true, "sealed": true, "callsite": true, "cutafter": true, "inlines": true, "record": true, "tokenmodel": true,
 }
 
 // ParseContractText parses the //@ lines of a contract file.
@@ -792,6 +801,19 @@ func (ss *SpecSet) ParseContractText(pkgPath, file, text string) error {
 				return err
 			}
 			curLoop.Invariants = append(curLoop.Invariants, cl)
+		case "record":
+			if curLoop == nil {
+				return fmt.Errorf("%s:%d: record outside loop", file, c.n)
+			}
+			j := strings.Index(rest, "=")
+			if j < 0 {
+				return fmt.Errorf("%s:%d: record needs 'NAME = expr'", file, c.n)
+			}
+			cl, err := mk(strings.TrimSpace(rest[j+1:]), c.n)
+			if err != nil {
+				return err
+			}
+			curLoop.Records = append(curLoop.Records, RecordSpec{Name: strings.TrimSpace(rest[:j]), E: cl})
 		case "unroll":
 			if curLoop == nil {
 				return fmt.Errorf("%s:%d: unroll outside loop", file, c.n)
@@ -817,6 +839,8 @@ func (ss *SpecSet) ParseContractText(pkgPath, file, text string) error {
 			cur.CutAfter = rest
 		case "inline":
 			cur.Inline = true
+		case "tokenmodel":
+			cur.TokenModel = true
 		case "inlines":
 			// inlines f, g: inside this function the listed callees are executed from their real bodies, not used through their contracts
 			if cur.Inlines == nil {
